@@ -14,7 +14,7 @@ SHARDS = {"quick": 16, "thorough": 16}
 RULE = ("universes of 3-16 path-backed entities whose free names separate whole-string from per-segment order (x, x-1, x.b, x+, x_y), "
         "materialised as a list, as a local file tree and through FindInAll's configured sources; 4 searches per universe with '>' at any "
         "position (directly or through a filter), optional second '>' further right, '*', comma lists, aliases, '**' elsewhere; plus "
-        "sid.get_last(key) for 2 entities x every key. Each Finder is compared with the reference 'greatest remaining segments per "
+        "sid.get_last(key) for 2 entities x every key of the Sid and the key of the next level. Each Finder is compared with the reference 'greatest remaining segments per "
         "group' computed over that Finder's own data (list entries / existing path-backed entities / configured sources); one case in four asks with as_sid=False. "
         "non-trivial = some group has >= 2 candidates and whole-string order differs from per-segment order, or >= 2 typed forms; "
         "distinct = (universe, search)")
